@@ -308,19 +308,22 @@ pub fn generate(prop: &str, rng: &mut Rng, plan: &mut Plan, index: u64) {
     let faulty = match prop {
         "C02" => index % 2 == 1,
         "C01" | "C04" => index % 4 == 3,
+        // size limits: only interrupted calls (EINTR, below), no short transfers
+        "C03" => index % 4 == 3,
         _ => false,
     };
     if faulty {
         plan.knobs.batch = "faulty".into();
         let f = &mut plan.knobs.faults;
-        if prop == "C02" || rng.chance(1, 2) {
+        if prop == "C03" {
+        } else if prop == "C02" || rng.chance(1, 2) {
             f.short_read_pm = *rng.pick(&[0u32, 50, 300, 900]);
             f.short_write_pm = *rng.pick(&[0u32, 50, 300, 900]);
             if f.short_read_pm == 0 && f.short_write_pm == 0 {
                 f.short_read_pm = 300;
             }
         }
-        if prop != "C02" {
+        if prop != "C02" && prop != "C03" {
             if rng.chance(1, 2) {
                 f.stall_pm = *rng.pick(&[5u32, 30, 100]);
             }
@@ -450,8 +453,8 @@ pub fn generate(prop: &str, rng: &mut Rng, plan: &mut Plan, index: u64) {
         plan.parent.files_low = rng.chance(1, 2);
     }
     // a signal handler of the application runs while the parent is blocked: EINTR
-    if plan.knobs.batch == "faulty" && !c.thread_variant && rng.chance(1, 3) {
-        let mask = *rng.pick(&[1u8, 1, 3, 7]);
+    if plan.knobs.batch == "faulty" && !c.thread_variant && rng.chance(if prop == "C03" { 2 } else { 1 }, 3) {
+        let mask = if prop == "C03" { *rng.pick(&[2u8, 3, 7]) } else { *rng.pick(&[1u8, 1, 3, 7]) };
         plan.knobs.faults.eintr = Some((1 + rng.below(40) as u32, 1 + rng.below(3) as u32, mask));
     }
     plan.body = Body::Comm(c);
